@@ -168,6 +168,6 @@ def init : Sh :=
     anext := fun _ => none, aval := fun _ => none, ahead := 0, atail := 0, nnode := 1,
     poolPriv := none, poolShared := [], length := 0 }
 
-def algo : Algo := { Sh, PC, start, label, exec }
+@[reducible] def algo : Algo := { Sh, PC, start, label, exec }
 
 end GoaktVerif.Model.C04.Fair
